@@ -17,6 +17,8 @@ import (
 // scratch by arrow-go's own reader (never by the repository's consumer).
 type Wire struct {
 	streams map[string]*bytes.Buffer
+	// Tabs: also render the id / parent-id view (wiretab.go) of small records
+	Tabs bool
 }
 
 func NewWire() *Wire { return &Wire{streams: map[string]*bytes.Buffer{}} }
@@ -32,6 +34,7 @@ type PayloadView struct {
 	Indep   string   `json:"indep"`   // "ok" or the independent reader's error
 	Records int      `json:"records"` // record batches in the sub-stream so far
 	Dicts   [][]any  `json:"dicts"`   // [column path, index bit width, entries] as held by the independent reader after this payload
+	tab     []any    // id / parent-id view of the payload's record (OtapWire.tla), nil if not rendered
 }
 
 func msgKinds(b []byte) []string {
@@ -122,6 +125,10 @@ func (w *Wire) Add(sid, ptype string, rec []byte) (pv PayloadView) {
 		rec := r.Record()
 		pv.Records++
 		pv.Rows = int(rec.NumRows())
+		pv.tab = nil
+		if w.Tabs && rec.NumRows() <= wireTabMaxRows {
+			pv.tab = wireTab(ptype, rec)
+		}
 		ds = map[string][2]int{}
 		for c := 0; c < int(rec.NumCols()); c++ {
 			f := rec.Schema().Field(c)
